@@ -407,8 +407,17 @@ def rewrite_rows(rws, atoms, value):
         if nm is None:
             continue
         nxt = []
+        # `S[S.iter().position(P).unwrap()]` is named `S.iter().find(P).unwrap()` (agvlib.sym): the same untested unwrap
+        alt = nm.replace("Iterator::position(", "Iterator::find(", 1) if r.get("index") and nm.startswith("Iterator::position(") else None
         for ats, val in todo:
             hit = [u for u in ("Option::<T>::unwrap(%s)" % nm, "Option::<T>::expect(%s" % nm) if u in val or any(u in a for a in ats)]
+            if not hit and alt and r["some"] not in ats and r["none"] not in ats:
+                ua = "Option::<T>::unwrap(%s)" % alt
+                if ua in val or any(ua in a for a in ats):
+                    tag_ = "x@%s" % r["seq"]
+                    nxt.append(([a.replace(ua, tag_) for a in ats] + [r["some"]], val.replace(ua, tag_)))
+                    nxt.append(([a.replace(ua, "Option::<T>::unwrap(None{})") for a in ats] + [r["none"]], val.replace(ua, "Option::<T>::unwrap(None{})")))
+                    continue
             if hit and r["some"] not in ats and r["none"] not in ats:
                 u = hit[0]
 
